@@ -281,6 +281,89 @@ func c20BlankConcurrent(w *fw.Worker, i int, r *fw.Rand) {
 	w.Distinct(fmt.Sprintf("blank-concurrent|%v|%v", secondWatches, got2))
 }
 
+// c20BlankDoneVsSetSource: Done overlaps SetSource(watcher). Whatever order the Blank serialises them in, a SetSource
+// that returned nil has handed the watch slot to the watcher: its later reports must still be installed.
+func c20BlankDoneVsSetSource(w *fw.Worker, i int, r *fw.Rand) {
+	leaves := c20Spec.LeafRefs()
+	c := &gen.Counter{}
+	native := &c10Chain{name: "none"}
+	ctx, cancel := context.WithCancel(context.Background())
+	defer cancel()
+	blank := &sourcewrap.Blank{}
+	d, err := dials.Config(ctx, &c20Cfg{A: -1, S: "dflt"}, blank)
+	desc := map[string]any{"mode": "blank-done-overlapping-setsource"}
+	if err != nil {
+		w.Violation(i, "config-error-with-blank", err.Error(), desc)
+		return
+	}
+	l1 := c20Layer(r, c, native, leaves)
+	watcher := &c20WSrc{c20Src{cur: l1, watching: true}}
+	pc := &parkCtx{Context: ctx, parked: make(chan struct{}), release: make(chan struct{})}
+	doneRet := make(chan struct{})
+	go func() { blank.Done(pc); close(doneRet) }()
+	select {
+	case <-pc.parked:
+	case <-time.After(10 * time.Second):
+		close(pc.release)
+		w.Inconclusive(i, "Blank.Done never reached its context check")
+		return
+	}
+	// bounded: once Done has given the slot up, nobody receives the SetSource report any more
+	sctx, scancel := context.WithTimeout(ctx, 400*time.Millisecond)
+	defer scancel()
+	setRet := make(chan error, 1)
+	go func() { setRet <- blank.SetSource(sctx, watcher) }()
+	var errSet error
+	got := false
+	select {
+	case errSet = <-setRet:
+		got = true
+	case <-time.After(30 * time.Millisecond):
+	}
+	close(pc.release)
+	<-doneRet
+	if !got {
+		select {
+		case errSet = <-setRet:
+		case <-time.After(10 * time.Second):
+			w.Inconclusive(i, "SetSource did not return after Done was released")
+			return
+		}
+	}
+	desc["setsource_overtook_done"] = got
+	w.Count("blank_done_vs_setsource_cases", 1)
+	if errSet != nil {
+		// Done won: the slot was given up before the watcher could take it
+		w.Distinct(fmt.Sprintf("blank-done-race|refused|%v", got))
+		return
+	}
+	l2 := c20Layer(r, c, native, leaves)
+	watcher.mu.Lock()
+	watcher.wctx = ctx // not the bounded context SetSource was called with
+	watcher.mu.Unlock()
+	rep := make(chan error, 1)
+	go func() { rep <- watcher.report(l2, true, nil) }()
+	var errRep error
+	select {
+	case errRep = <-rep:
+	case <-time.After(10 * time.Second):
+		errRep = fmt.Errorf("still blocked after 10s")
+	}
+	if errRep != nil {
+		w.Violation(i, "watcher-cut-off-after-successful-setsource", fmt.Sprintf("SetSource(watcher) returned nil, but the watcher's next blocking report failed: %v", errRep), desc)
+		return
+	}
+	res, cerr := dials.VerifCompose(&c20Cfg{A: -1, S: "dflt"}, []reflect.Value{l2.Materialize(innerTypeOf(d))})
+	if cerr == nil {
+		w.Count("twin_views_compared", 1)
+		if df := gen.Diff(reflect.ValueOf(res).Elem(), reflect.ValueOf(*d.View())); df != "" {
+			w.Violation(i, "watcher-update-lost-after-successful-setsource", df, desc)
+			return
+		}
+	}
+	w.Distinct(fmt.Sprintf("blank-done-race|accepted|%v", got))
+}
+
 func runC20(w *fw.Worker) {
 	// the exhaustive Blank sequences are distributed over the shards
 	seqs := c20BlankSeqs(4)
@@ -300,6 +383,8 @@ func runC20(w *fw.Worker) {
 			c20Decoder(w, i, r)
 		case i%6 == 3 && i%4 == 1:
 			c20BlankConcurrent(w, i, r)
+		case i%24 == 15:
+			c20BlankDoneVsSetSource(w, i, r)
 		default:
 			c20Twin(w, i, r)
 		}
@@ -454,6 +539,34 @@ func c20Twin(w *fw.Worker, i int, r *fw.Rand) {
 				return
 			}
 		}
+	}
+	if kind == "watching" && r.Bool() {
+		// after shutdown a report cannot be delivered: the watcher must be told so (it may retry elsewhere), wrapped or not
+		cancel()
+		for _, done := range []<-chan struct{}{dials.VerifMonitorDone(dw), dials.VerifMonitorDone(dr)} {
+			select {
+			case <-done:
+			case <-time.After(10 * time.Second):
+				w.Inconclusive(i, "monitor exit not observed after cancelling the Config context")
+				return
+			}
+		}
+		l := c20Layer(r, c, &ch, leaves)
+		blocking := r.Bool()
+		errRf := refW.report(l, blocking, nil)
+		errI := innerW.report(l, blocking, nil)
+		w.Count("reports_after_shutdown_compared", 1)
+		switch {
+		case errI != nil && strings.HasPrefix(errI.Error(), "harness"):
+			w.Note(errI.Error())
+		case (errRf != nil) != (errI != nil):
+			w.Violation(i, "undeliverable-report-outcome-differs-through-wrapper:"+ch.name, fmt.Sprintf("report (blocking=%v) after shutdown: native source got %v, wrapped source got %v", blocking, errRf, errI), desc)
+			return
+		case errRf != nil && errors.Is(errRf, context.Canceled) && !errors.Is(errI, context.Canceled):
+			w.Violation(i, "context-error-not-reachable-through-wrapper:"+ch.name, fmt.Sprintf("native: %v; wrapped: %v", errRf, errI), desc)
+			return
+		}
+		pat.WriteString("|late")
 	}
 	w.Distinct(ch.name + "|" + kind + "|" + pat.String())
 	if i%61 == 0 {
